@@ -12,19 +12,22 @@ PROPS = ["C02/Props.v"]
 DRIVER = "c02_driver.py"
 CLAUSE = {2: "called-without-change", 3: "called-for-rejected-or-read", 4: "change-not-notified",
           5: "assignment-undone", 6: "old-new-untruthful", 7: "mechanisms-disagree"}
-NPOOL, REJ, ALIAS = 20, 9, 10
+NPOOL, REJ, ALIAS = 25, 9, 10
+ARRAYS = [20, 21, 22, 23, 24]      # numpy arrays: two equal one-element ones, another one-element one, two equal two-element ones
 DRANGE_OK, DRANGE_REJ, DRANGE_DEFAULT = [12, 16, 17, 18], 19, 17     # dynamic Range(0..10, value=5): ints in / out of range
 POOL_NAMES = ["Eq(1)#a", "Eq(1)#b", "Eq(2)", "nan#a", "nan#b", "EqRaises", "None", "[1]#a", "[1]#b", "rejected", "converted-to-Eq(1)#a",
-              "Incoherent", "0", "0.0", "ArrayLike(no truth value)", "BadRepr(str/repr raise)", "3", "5", "7", "99"]
+              "Incoherent", "0", "0.0", "ArrayLike(no truth value)", "BadRepr(str/repr raise)", "3", "5", "7", "99",
+              "array([2.5])#a", "array([2.5])#b", "array([3.5])", "array([1.,2.])#a", "array([1.,2.])#b"]
 MECH = {"any": "StaticAny", "changed": "StaticChanged", "fired": "StaticFired", "otc": "Otc", "otcany": "OtcAny",
         "obs": "Observe", "dotc": "Otc", "dobs": "Observe", "otcm": "Otc", "obsm": "Observe"}
 ONCE = ("otc_once", "otcany_once", "obs_once")      # handlers that unregister themselves while being notified
 MECH.update({"otc_once": "Otc", "otcany_once": "OtcAny", "obs_once": "Observe"})
 OBJ_LEVEL = ("otcany", "otcany_once")
 MECH["dobsx"] = "Observe"
+MECH.update({"dotcp": "Otc", "dobsp": "Observe"})     # decorated with post_init=True
 MECH.update({"otcx": "Otc", "obsx": "Observe"})       # registered through an owner's List with an extended name
-STATIC_ID = {"any": 0, "changed": 1, "fired": 2, "dotc": 3, "dobs": 4, "dobsx": 5}
-STATICS = ("any", "changed", "fired", "dotc", "dobs", "dobsx")      # dobsx: @observe("x") def _x_changed (excludes "changed")
+STATIC_ID = {"any": 0, "changed": 1, "fired": 2, "dotc": 3, "dobs": 4, "dobsx": 5, "dotcp": 6, "dobsp": 7}
+STATICS = ("any", "changed", "fired", "dotc", "dobs", "dobsx", "dotcp", "dobsp")      # dobsx: @observe("x") def _x_changed (excludes "changed")
 CMP = {"T": C("CTrue"), "F": C("CFalse"), "R": C("CRaise")}
 
 
@@ -71,11 +74,12 @@ def to_term(case, ob):
                                                                         "equality": "MEquality"}[case["mode"]]))
     hs = [C("mkHandler", Nat(i), C(MECH[m]), i in case["raises"]) for i, m in handlers_of(case)]
     cfg = C("mkConfig", Raw("pool_eq"), Raw("pool_ne"),
-            Raw({"any": "pool_validate_any", "drange": "pool_validate_drange"}.get(case.get("variant"), "pool_validate")),
+            Raw({"any": "pool_validate_any", "drange": "pool_validate_drange", "array": "pool_validate_array"}.get(
+                case.get("variant"), "pool_validate")),
             Nat(case["default"]), kind, hs,
             bool(case.get("orig")) and case["kind"] == "normal",
             reacts_term(case),
-            {"fresh-eq": Some(Raw("fresh_eq_tbls")), "fresh-ne": Some(Raw("fresh_ne_tbls"))}.get(
+            {"fresh-eq": Some(Raw("fresh_eq_tbls")), "fresh-ne": Some(Raw("fresh_ne_tbls")), "array": Some(Raw("fresh_arr_tbls"))}.get(
                 case.get("variant") if case["kind"] == "normal" else "", None))
     h = []
     for op, st in zip(case["ops"], ob["steps"]):
@@ -148,6 +152,7 @@ def gen_case(rnd, ctx, maxlen):
     statics = [s for s in ("any", "changed", "fired") if rnd.random() < 0.5] + [s for s in ("dotc", "dobs") if rnd.random() < 0.25]
     if rnd.random() < 0.15:
         statics = [s for s in statics if s != "changed"] + ["dobsx"]
+    statics += [s for s in ("dotcp", "dobsp") if rnd.random() < 0.15]
     dyn = [rnd.choice(["otc", "obs", "otc", "obs", "otcany", "otcm", "obsm"]) for _ in range(rnd.choice([0, 1, 2, 2, 3, 4]))]
     if rnd.random() < 0.15:
         statics = [s for s in statics if s == "dobs"][:0]      # object-level handlers only: the trait has no notifier list
@@ -287,7 +292,10 @@ def gen_case(rnd, ctx, maxlen):
     if r < 0.1:
         case = as_drange(case)
         ctx.count("trait-variant:drange (Range with dynamic bounds)")
-    elif r < 0.25 and kind == "normal" and variant in ("", "any"):
+    elif r < 0.17:
+        case = as_array(case)
+        ctx.count("trait-variant:array (numpy Array, identity mode)")
+    elif r < 0.3 and kind == "normal" and variant in ("", "any"):
         case = with_extended_handler(rnd, case)
         ctx.count("mechanism:" + case["dyn"][-1])
     return case
@@ -308,6 +316,23 @@ def as_drange(case):
         if op[0] in ("Assign", "QuietAssign"):
             ops.append([op[0], safe[op[1] % len(safe)]])
         elif op[0] in ("Delete", "Retrait", "SetMode"):
+            ops.append(["Read"])
+        else:
+            ops.append(op)
+    c["ops"] = ops
+    return c
+
+
+def as_array(case):
+    """The same history on a numpy Array trait: identity comparison mode, default copied afresh per instance, only arrays
+    (None is rejected); no add_trait / comparison-mode change."""
+    c = dict(case, kind="normal", mode="identity", default=6, orig=False, build="", variant="array")
+    safe = ARRAYS + [6]
+    ops = []
+    for op in case["ops"]:
+        if op[0] in ("Assign", "QuietAssign"):
+            ops.append([op[0], safe[op[1] % len(safe)]])
+        elif op[0] in ("Retrait", "SetMode"):
             ops.append(["Read"])
         else:
             ops.append(op)
@@ -461,6 +486,16 @@ def corpus():
                     [["Read"], ["Assign", 17], ["Assign", 16]], [["QuietAssign", 17], ["Assign", 17], ["Assign", 18]]):
             cs.append(dict(kind="normal", mode="equality", default=DRANGE_DEFAULT, statics=statics, dyn=dyn, raises=[],
                            variant="drange", ops=ops))
+    # decorated handlers with post_init=True (hooked up after construction), alone and next to the other decorated ones
+    for kind, mode in (("normal", "none"), ("normal", "identity"), ("normal", "equality"), ("event", "equality")):
+        for statics in (["dotcp", "dobsp"], ["changed", "dotc", "dobs", "dotcp", "dobsp"], ["dotcp"]):
+            cs.append(dict(kind=kind, mode=mode, default=6, statics=statics, dyn=["obs", "otc"], raises=[], subclass=(len(statics) == 1),
+                           ops=[["Assign", 0], ["Assign", 2], ["Assign", 2], ["Read"], ["Assign", 1]]))
+    # numpy Array trait: a different array object that compares equal (one element: unambiguous truth value) is a change
+    for statics, dyn in ((["any", "changed", "fired"], ["otc", "obs"]), (["dobs"], ["otcany", "obsm"])):
+        cs.append(dict(kind="normal", mode="identity", default=6, statics=statics, dyn=dyn, raises=[], variant="array",
+                       ops=[["Assign", 20], ["Assign", 21], ["Assign", 21], ["Assign", 22], ["Assign", 23], ["Assign", 24], ["Assign", 6],
+                            ["Delete"], ["Assign", 20], ["Read"], ["QuietAssign", 21], ["Assign", 20]]))
     # comparisons that have no truth value / raise, with an observe handler registered BEFORE the legacy ones
     cs.append(dict(kind="normal", mode="equality", default=6, statics=[], dyn=["obs", "otc", "otcany", "obs"], raises=[],
                    ops=[["Assign", 2], ["Assign", 14], ["Assign", 2], ["Assign", 5], ["Assign", 14], ["Assign", 14], ["Assign", 5]]))
@@ -590,11 +625,13 @@ def run(ctx):
             [opt(None if v is None else Nat(v)) for v in tb["validate"]]),
         "Definition pool_validate_any : list (option val) := %s." % coq([Some(Nat(i)) for i in range(len(tb["validate"]))]),
         "Definition pool_validate_drange : list (option val) := %s." % coq(
-            [Some(Nat(i)) if i in DRANGE_OK else None for i in range(len(tb["validate"]))])] + [
+            [Some(Nat(i)) if i in DRANGE_OK else None for i in range(len(tb["validate"]))]),
+        "Definition pool_validate_array : list (option val) := %s." % coq(
+            [Some(Nat(i)) if i in ARRAYS else None for i in range(len(tb["validate"]))])] + [
         "Definition %s : fresh_tbl * fresh_tbl := %s." % (nm, coq(tuple(
             C("mkFresh", [CMP[x] for x in tb["fresh"][k][w]["row"]], [CMP[x] for x in tb["fresh"][k][w]["col"]],
               CMP[tb["fresh"][k][w]["other"]], CMP[tb["fresh"][k][w]["self"]]) for w in ("eq", "ne"))))
-        for nm, k in (("fresh_eq_tbls", "fresh-eq"), ("fresh_ne_tbls", "fresh-ne"))])
+        for nm, k in (("fresh_eq_tbls", "fresh-eq"), ("fresh_ne_tbls", "fresh-ne"), ("fresh_arr_tbls", "fresh-array"))])
     ctx.cov["pool_tables"] = tb
     # pre-flight: if the implementation kills the driver process (abort / segfault) find the history that does it and
     # report it as a failing input (the assignment does not complete, no handler is called), then go on without it
